@@ -238,10 +238,14 @@ func debExec(w *world, f []string) string {
 		for i := range d.listeners {
 			l := &d.listeners[i]
 			for w := 0; w < 2 && !l.answered; w++ {
+				patience := debWatchdog
+				if len(un) > 0 {
+					patience = time.Millisecond // the others have had the two windows of the first one as well
+				}
 				select {
 				case <-l.ch:
 					l.answered = true
-				case <-time.After(debWatchdog):
+				case <-time.After(patience):
 				}
 			}
 			if !l.answered {
@@ -302,7 +306,7 @@ func runDebouncer(r *vh.Rng, out *vh.Out, tier string) {
 			}
 		}
 		emit("evdbdrain", "evdb/drain")
-		if a := emit("evdbserved", "evdbserved/spec-backed"); strings.HasPrefix(a, "hung") {
+		if a := emit("evdbserved", "evdbserved/spec-backed"); strings.HasPrefix(a, "hung") || strings.HasPrefix(a, "unanswered") {
 			break // every further schedule of this kind would cost two watchdog windows: one concrete history is enough
 		}
 	}
